@@ -20,6 +20,8 @@ def option_copies(g, field_node):
     such a copy in one component are returned separately as {(body, local): {component indices}}."""
     f = g.facts
     copies = set()
+    if isinstance(field_node, tuple) and len(field_node) == 2 and field_node[0] in f.bodies:
+        copies.add(field_node)        # the Option is a parameter: it is its own first copy
     dq = deque([field_node])
     seen = {field_node}
     while dq:
@@ -124,6 +126,67 @@ def _reach(b, starts, stop):
     return seen
 
 
+def _inevitable_refusal(b, start, refusing, limit=4000):
+    """from block `start`, does every path end in a refusing block before a normal return? Locals that are assigned
+    constants (and their copies / negations) are tracked, and a switch on a tracked local follows its one target."""
+    succ = b.succ()
+    work = [(start, ())]
+    seen = set()
+    steps = 0
+    while work:
+        blk, envt = work.pop()
+        steps += 1
+        if steps > limit:
+            return False
+        if (blk, envt) in seen:
+            continue
+        seen.add((blk, envt))
+        if blk in refusing:
+            continue
+        env = dict(envt)
+        x = b.blocks[blk]
+        if x["cleanup"]:
+            continue
+        for st in x["stmts"]:
+            d = st["dst"]
+            rv = st["rv"]
+            if d["p"]:
+                continue
+            val = None
+            ops = rv.get("ops", [])
+            if rv.get("k") == "use" and len(ops) == 1:
+                o = ops[0]
+                if o["k"] == "const" and isinstance(o.get("val"), (int, bool)):
+                    val = int(o["val"])
+                elif o["k"] in ("copy", "move") and not o["pl"]["p"] and o["pl"]["l"] in env:
+                    val = env[o["pl"]["l"]]
+            elif rv.get("k") == "unop" and rv.get("op") == "Not" and len(ops) == 1 and ops[0]["k"] in ("copy", "move") \
+                    and not ops[0]["pl"]["p"] and ops[0]["pl"]["l"] in env:
+                val = 0 if env[ops[0]["pl"]["l"]] else 1
+            if val is None:
+                env.pop(d["l"], None)
+            else:
+                env[d["l"]] = val
+        t = x["term"]
+        k = t["k"]
+        if k == "return":
+            return False
+        if k == "call":
+            if not t["dst"]["p"]:
+                env.pop(t["dst"]["l"], None)
+            nxt = [t["t"]] if t["t"] is not None else []
+        elif k == "switch" and t["op"]["k"] in ("copy", "move") and not t["op"]["pl"]["p"] and t["op"]["pl"]["l"] in env:
+            v = env[t["op"]["pl"]["l"]]
+            nxt = [tb for (val, tb) in t.get("targets", []) if val == v] or [t.get("otherwise")]
+        else:
+            nxt = list(succ[blk])
+        e2 = tuple(sorted(env.items()))
+        for y in nxt:
+            if y is not None:
+                work.append((y, e2))
+    return True
+
+
 def mismatch_refusal(g, odb, osc):
     """a refusing block reached with the first test saying `present` and the second `absent` or the other way round."""
     f = g.facts
@@ -163,6 +226,10 @@ def mismatch_refusal(g, odb, osc):
                                 hit = [r for r in region if r in refusing and b.dominates(c, r)]
                                 if hit:
                                     return b.blocks[hit[0]]["term"].get("span") or b.span
+                                # the arm may only record the mismatch in a flag that is tested after the join
+                                # (`None => false` .. `if !is_enforced { return Err(..) }`): follow constants
+                                if _inevitable_refusal(b, c, refusing):
+                                    return b.blocks[c]["term"].get("span") or b.span
     return None
 
 
